@@ -20,7 +20,8 @@
 (***************************************************************************)
 EXTENDS TauGen, TLC, Json
 
-CONSTANTS MaxK,
+CONSTANTS EmitAlts,   \* TRUE: every commutative case carries its reversed writing as an alternative (C17)
+          MaxK,
           Dev      \* named deviations of the engine layer that are switched on (DESIGN.md 4.2)
 
 VARIABLES form, k, rs, n, pc
@@ -65,23 +66,30 @@ KeyDoc == IF rs[1] = "M" THEN OV(<<>>)
           ELSE OV(<< <<Fld(0), SV(<<122>> \o Flat([i \in 1..k |-> IF rs[i] = "T" THEN Letter(i) ELSE <<>>]))>> >>)
 KeyList(mixed) == ListV([i \in 1..k |-> Memb(i, mixed)])
 
-CaseSrc ==
-  CASE form = "and_chain" -> Src(Chain("and", [i \in 1..k |-> Id(IdN(i))]), AtomIds)
-    [] form = "or_chain"  -> Src(Chain("or", [i \in 1..k |-> Id(IdN(i))]), AtomIds)
-    [] form = "map_group" -> Src(Id(A), << <<A, MapB([i \in 1..k |-> Ent(Fld(i), ExactP(X))])>> >>)
-    [] form = "seq_group" -> Src(Id(A), << <<A, SeqB([i \in 1..k |-> Atom(i)])>> >>)
+(* o: the order in which the operands are WRITTEN (a permutation of 1..k); C17 compares the     *)
+(* identity order with the reversed one                                                        *)
+IdOrd == [i \in 1..k |-> i]
+RevOrd == [i \in 1..k |-> k + 1 - i]
+KeyListO(mixed, o) == ListV([i \in 1..k |-> Memb(o[i], mixed)])
+SrcFor(o) ==
+  CASE form = "and_chain" -> Src(Chain("and", [i \in 1..k |-> Id(IdN(o[i]))]), AtomIds)
+    [] form = "or_chain"  -> Src(Chain("or", [i \in 1..k |-> Id(IdN(o[i]))]), AtomIds)
+    [] form = "map_group" -> Src(Id(A), << <<A, MapB([i \in 1..k |-> Ent(Fld(o[i]), ExactP(X))])>> >>)
+    [] form = "seq_group" -> Src(Id(A), << <<A, SeqB([i \in 1..k |-> Atom(o[i])])>> >>)
     [] form = "not1"      -> Src(NotC(Id(A)), << <<A, Atom(1)>> >>)
-    [] form = "all_seq"   -> Src(AllC(A), << <<A, SeqB([i \in 1..k |-> Atom(i)])>> >>)
-    [] form = "of_seq"    -> Src(OfC(A, n), << <<A, SeqB([i \in 1..k |-> Atom(i)])>> >>)
-    [] form = "all_map"   -> Src(AllC(A), << <<A, MapB([i \in 1..k |-> Ent(Fld(i), ExactP(X))])>> >>)
-    [] form = "of_map"    -> Src(OfC(A, n), << <<A, MapB([i \in 1..k |-> Ent(Fld(i), ExactP(X))])>> >>)
-    [] form = "klist"     -> Src(Id(A), << <<A, MapB(<<Ent(Fld(0), KeyList(FALSE))>>)>> >>)
-    [] form = "kall"      -> Src(Id(A), << <<A, MapB(<<EntM("all", 0, Fld(0), KeyList(FALSE))>>)>> >>)
-    [] form = "kof"       -> Src(Id(A), << <<A, MapB(<<EntM("of", n, Fld(0), KeyList(FALSE))>>)>> >>)
-    [] form = "klist_mix" -> Src(Id(A), << <<A, MapB(<<Ent(Fld(0), KeyList(TRUE))>>)>> >>)
-    [] form = "kall_mix"  -> Src(Id(A), << <<A, MapB(<<EntM("all", 0, Fld(0), KeyList(TRUE))>>)>> >>)
-    [] form = "kof_mix"   -> Src(Id(A), << <<A, MapB(<<EntM("of", n, Fld(0), KeyList(TRUE))>>)>> >>)
-    [] form = "knot"      -> Src(Id(A), << <<A, MapB(<<EntM("not", 0, Fld(0), KeyList(FALSE))>>)>> >>)
+    [] form = "all_seq"   -> Src(AllC(A), << <<A, SeqB([i \in 1..k |-> Atom(o[i])])>> >>)
+    [] form = "of_seq"    -> Src(OfC(A, n), << <<A, SeqB([i \in 1..k |-> Atom(o[i])])>> >>)
+    [] form = "all_map"   -> Src(AllC(A), << <<A, MapB([i \in 1..k |-> Ent(Fld(o[i]), ExactP(X))])>> >>)
+    [] form = "of_map"    -> Src(OfC(A, n), << <<A, MapB([i \in 1..k |-> Ent(Fld(o[i]), ExactP(X))])>> >>)
+    [] form = "klist"     -> Src(Id(A), << <<A, MapB(<<Ent(Fld(0), KeyListO(FALSE, o))>>)>> >>)
+    [] form = "kall"      -> Src(Id(A), << <<A, MapB(<<EntM("all", 0, Fld(0), KeyListO(FALSE, o))>>)>> >>)
+    [] form = "kof"       -> Src(Id(A), << <<A, MapB(<<EntM("of", n, Fld(0), KeyListO(FALSE, o))>>)>> >>)
+    [] form = "klist_mix" -> Src(Id(A), << <<A, MapB(<<Ent(Fld(0), KeyListO(TRUE, o))>>)>> >>)
+    [] form = "kall_mix"  -> Src(Id(A), << <<A, MapB(<<EntM("all", 0, Fld(0), KeyListO(TRUE, o))>>)>> >>)
+    [] form = "kof_mix"   -> Src(Id(A), << <<A, MapB(<<EntM("of", n, Fld(0), KeyListO(TRUE, o))>>)>> >>)
+    [] form = "knot"      -> Src(Id(A), << <<A, MapB(<<EntM("not", 0, Fld(0), KeyListO(FALSE, o))>>)>> >>)
+CaseSrc == SrcFor(IdOrd)
+
 
 CaseDoc == IF form \in KeyForms THEN KeyDoc ELSE AtomDoc
 
@@ -135,6 +143,20 @@ Eng ==
     [] form = "kall_mix"  -> EngAllGroup(MixGroup)
     [] form = "kof_mix"   -> EngOfGroup(n, MixGroup)
 
+(* C17: reordering never decides whether a conjunction / disjunction / count is TRUE (design    *)
+(* level, on the solver's loops and on the language layer), except under a negation or none-of  *)
+Perms == {p \in [1..k -> 1..k] : \A i, j \in 1..k : i # j => p[i] # p[j]}
+Permuted(p) == [i \in 1..k |-> rs[p[i]]]
+Commutative == form \notin {"not1", "knot"} /\ ~(form \in Thresholded /\ n = 0)
+OrderFree ==
+  \A p \in Perms :
+     /\ (EngAndGroup(Permuted(p)) = "T") = (EngAndGroup(rs) = "T")
+     /\ (EngOrGroup(Permuted(p)) = "T") = (EngOrGroup(rs) = "T")
+     /\ (n >= 1 => (EngOfGroup(n, Permuted(p)) = "T") = (EngOfGroup(n, rs) = "T"))
+     /\ (FoldAnd2(Permuted(p)) = "T") = (FoldAnd2(rs) = "T")
+     /\ (FoldOr2(Permuted(p)) = "T") = (FoldOr2(rs) = "T")
+LangOrderFree == Commutative => LangVerdicts(SrcFor(RevOrd), CaseDoc) = LangVerdicts(CaseSrc, CaseDoc)
+
 (* the engine layer agrees with the truth tables, except where a NAMED deviation applies *)
 KnownDeviation == \/ "quant_partial_batch" \in Dev /\ form \in {"kall_mix", "kof_mix"} /\ k >= 3
                   \/ "of_single_ignores_count" \in Dev /\ form = "of_map" /\ k = 1 /\ n >= 2
@@ -149,6 +171,7 @@ Lifted == LET Ss == Singletons(rs) IN
 Emit == pc = "done" =>
   PrintT("REPLAY " \o ToJson([topic |-> "C06", form |-> form, oracle |-> TRUE, wt |-> TRUE,
                                src |-> CaseSrc, docs |-> <<CaseDoc>>,
+                               alts |-> IF EmitAlts /\ Commutative /\ k >= 2 THEN <<SrcFor(RevOrd)>> ELSE <<>>,
                                exp |-> SetSeq(Adm), eng |-> Eng,
                                plan |-> [tri |-> TRUE, sws |-> << <<>> >>]]))
 =============================================================================
